@@ -15,6 +15,8 @@ and `pendingTimer.Cancel` (disarmed); the timer is one-shot: the callback step `
 enabled only while armed and disarms.  Trusted (avalanchego `utils/timer`): an armed timer
 eventually calls the callback, an unarmed one never does.  `Close` calls `Stop` only after
 releasing the mutex, so a due callback may still run once after `Close` (and finds `closed`).
+A callback already dispatched may also run *late*, after a `Cancel` (step `late`): when the
+timer is unarmed this is a no-op (`Props.C32.callback_unarmed_noop`).
 -/
 namespace HyperModel.Pubsub
 
@@ -155,13 +157,17 @@ def recv (s : State) : State × Out :=
   | b :: q => ({ s with queue := q }, ⟨.batch b, none⟩)
   | [] => (s, ⟨if s.closed then .eof else .empty, none⟩)
 
-inductive Op | send (msg : Bytes) | fire | close | recv
+/-- `late`: a callback that was dispatched by an earlier arming and was blocked on the mutex
+runs now, whatever the flag says (e.g. after `Send` did `Cancel` [+ `SetTimeoutIn`]); it does
+not consume the current arming. -/
+inductive Op | send (msg : Bytes) | fire | close | recv | late
 
 def step (c : Cfg) (s : State) : Op → State × Out
   | .send m => send c s m
   | .fire => fire c s
   | .close => close c s
   | .recv => recv s
+  | .late => callback c s
 
 /-- run a sequence of atomic steps: final state and the outputs, one per step -/
 def run (c : Cfg) : State → List Op → State × List Out
